@@ -115,6 +115,7 @@ def handleMW (cfgs : List String) (ops : List (List String)) : String :=
     | .readerStrict, ["w", _] => ("bad-op", none)
     | .readerZeroExt, ["len"] => ("bad-op", none)
     | .readerStrict, ["len"] => ("bad-op", none)
+    | _, ["w", v] => mwSpecStep a ["w", toString (((num? v).getD 0) % 2 ^ W)]   -- the argument is a W-bit word
     | _, _ => mwSpecStep a op
   let o3 := runOpsD mwStep mk ops []
   let o1 := runOpsD specStep { kind := sk, arr := init.map (· % 2 ^ W) } ops []
